@@ -168,7 +168,7 @@ class ModbusTransactionManager(object):
                             _logger.debug("Retry on empty - {}".format(retries))
                         elif not response:
                             break
-                        if not self.retry_on_invalid:
+                        if response and not self.retry_on_invalid:
                             break
                         mbap = self.client.framer.decode_data(response)
                         if (mbap.get('unit') == request.unit_id):
